@@ -58,6 +58,8 @@ GROUPS += [
 
 GROUPS.append(Group(name="C05/parse_org", unity="C05/u_org.cpp", entry="h_org", functions=[("parse_org", "core/directives.cpp", "harness (function text extracted verbatim), loop-free, all operand values"), ("AsmContext::set_org", "core/AsmContext.h", "real callee")],
                     checks=["--bounds-check", "--pointer-check"], timeout=300))
+GROUPS.append(Group(name="C05/parse_db.escape[bounded]", unity="C05/u_dbesc.cpp", entry="h_dbesc", functions=[("parse_db", "core/directives_data.cpp", "harness, bounded")],
+                    unwind=8, checks=["--bounds-check", "--pointer-check"], timeout=600, bounded="one quoted string of at most 4 characters, every character symbolic (backslashes included)"))
 LEVEL = "proof"
 TRUSTED = [
     "tokens_get/tokens_push/eval_expression/ignore_operand replaced by their contracts (arbitrary token; arbitrary value or unresolved)",
